@@ -811,7 +811,10 @@ def check_independence(ctx, cfg, rec, rng):
     if n > 1:
         forms += [{'kind': 'slice', 'v': [1, None, None]},
                   {'kind': 'list', 'v': [n - 1, 0]},
-                  {'kind': 'get_many', 'v': labels[::-1], 'as': 'list'}]
+                  {'kind': 'get_many', 'v': labels[::-1], 'as': 'list'},
+                  # every label in catalog order: the selection is the whole catalog, the result
+                  # must still be an independent catalog
+                  {'kind': 'get_many', 'v': list(labels), 'as': 'array'}]
     twin_cache = {}
     if not ctx.thorough:
         forms = forms[:1] + forms[4:]
